@@ -25,15 +25,30 @@ from typing import Any
 
 import anyio
 from anyio import CancelScope
-from anyio._backends._asyncio import is_anyio_cancellation
 
 from . import vloop
+
+
+def is_anyio_cancellation(exc: BaseException) -> bool:
+    """Reference reading (the harness's own, NOT the library's function, which is under test): a
+    CancelledError is AnyIO's if it carries a cancel scope's message, or directly replaced - through a
+    chain of CancelledErrors only - one that does.  An ordinary exception in between breaks the chain."""
+    while isinstance(exc, asyncio.CancelledError):
+        if exc.args and isinstance(exc.args[0], str) and exc.args[0].startswith("Cancelled via cancel scope "):
+            return True
+        exc = exc.__context__  # type: ignore[assignment]
+    return False
 
 
 class Err(Exception):
     def __init__(self, n: int):
         super().__init__(n)
         self.n = n
+
+    def __bool__(self) -> bool:
+        # every third error object is falsy (like an exception type defining __len__/__bool__): code
+        # that tests `if exc:` where it means `if exc is not None:` treats it as "nothing was raised"
+        return self.n % 3 != 0
 
 
 def leaves(e: BaseException) -> list[BaseException]:
@@ -402,7 +417,7 @@ class KRun:
             exc = e
         i = self.emit(f"{me} exit {L} {evcode(exc)}", None)
         try:
-            swallowed = sc.__exit__(type(exc) if exc else None, exc, exc.__traceback__ if exc else None)
+            swallowed = sc.__exit__(type(exc) if exc is not None else None, exc, exc.__traceback__ if exc is not None else None)
         except BaseException as e2:
             self.lines[i][1] = ("exit raised " + evcode(e2)) if isinstance(e2, BaseExceptionGroup) else "rterr"
             self.hist("exit", L, me, evcode(exc), "raised", evcode(e2), sc.cancelled_caught)
@@ -438,7 +453,7 @@ class KRun:
         i = self.emit(f"{me} exit {L} {evcode(exc)}", None)
         timeout = False
         try:
-            swallowed = cm.__exit__(type(exc) if exc else None, exc, exc.__traceback__ if exc else None)
+            swallowed = cm.__exit__(type(exc) if exc is not None else None, exc, exc.__traceback__ if exc is not None else None)
         except TimeoutError:
             swallowed, timeout = True, True
         except BaseException as e2:
@@ -477,7 +492,7 @@ class KRun:
         self.hist("aexit-begin", G, me, evcode(exc))
         self.open[me] = self.emit(f"{me} aexit {G} {evcode(exc)}", None)
         try:
-            swallowed = await tg.__aexit__(type(exc) if exc else None, exc, exc.__traceback__ if exc else None)
+            swallowed = await tg.__aexit__(type(exc) if exc is not None else None, exc, exc.__traceback__ if exc is not None else None)
         except BaseException as e2:
             # re-raising the very exception that was handed in: same classification as on the way in
             code = evcode(exc) if e2 is exc else owncode(e2)
